@@ -15,6 +15,8 @@ type modelCheck struct {
 	nt      func(l map[string]bool) bool
 	assume  []string
 	valid   bool // ValidSigs
+	// tweak may adjust the knobs per case (drawn from the rapid stream)
+	tweak func(t *rapid.T, k *Knobs)
 }
 
 func (mc modelCheck) register() {
@@ -23,7 +25,11 @@ func (mc modelCheck) register() {
 		Rule:        mc.rule + "; distinct by FNV-64 of the canonical IR",
 		Assumptions: append([]string{"harness model (written from the property statement and doc.go) is the oracle", "reflect.MakeFunc/StructOf-built functions behave like declared ones for dig"}, mc.assume...),
 		Gen: func(t *rapid.T, thorough bool) *Case {
-			return GenCase(t, scale(mc.knobs(), thorough))
+			k := scale(mc.knobs(), thorough)
+			if mc.tweak != nil {
+				mc.tweak(t, &k)
+			}
+			return GenCase(t, k)
 		},
 		Check: func(c *Case, st *Stats) *Failure {
 			tr := Run(c, RunOpts{})
@@ -47,7 +53,7 @@ func init() {
 	// C02 — singletons
 	modelCheck{
 		id:   "C02",
-		rule: "histories biased to repeated Invokes of the same keys from several scopes, with fault-then-retry plans; non-trivial = some function's outputs were delivered >=3 times through >=2 different paths (direct parameter / group membership / decorator input) or to consumers in >=2 scopes",
+		rule: "histories biased to repeated Invokes of the same keys from several scopes, with fault-then-retry plans and constructor bodies that call back into the container (re-entrant Invoke of their own or other keys); non-trivial = some function's outputs were delivered >=3 times through >=2 different paths (direct parameter / group membership / decorator input) or to consumers in >=2 scopes",
 		knobs: func() Knobs {
 			k := DefaultKnobs()
 			k.WInvoke = 12
@@ -58,6 +64,16 @@ func init() {
 			k.PRecover = 60
 			k.Types = []string{"T0", "T1", "T2", "T3", "S0"}
 			return k
+		},
+		tweak: func(t *rapid.T, k *Knobs) {
+			// a fifth of the cases: constructor bodies call back into the
+			// container. No decorators there: while a decorator builds its
+			// arguments dig skips it by design, so a nested consumer would
+			// legitimately see the undecorated value.
+			if rapid.IntRange(0, 9).Draw(t, "reentrant-case") >= 8 {
+				k.NoDecorators = true
+				k.PReenter = 40
+			}
 		},
 		clauses: []string{CExecTwice, CNested, CBadExec, CProvSingle, CGroupMultiset},
 		nt:      func(l map[string]bool) bool { return l["demanded>=3-via-2-paths"] },
